@@ -514,7 +514,7 @@ def _all_worker(arg):
 
 def run(ctx):
     maxlen = ctx.scale(3, 4)
-    n = ctx.scale(4800, 400000)
+    n = ctx.scale(3200, 240000)
     ctx.pmap(_all_worker, [(w, maxlen, subseed(ctx.seed, PID, w), n // 16) for w in range(16)])
     ctx.exhaustive = True
     ctx.extra["exhaustive_domain"] = (
